@@ -190,6 +190,7 @@ def all_truncations(corpus: list[Pdu]):
     for p in corpus:
         for n in range(0, len(p.data)):
             yield 'trunc', p.name, p.data[:n]
+        yield 'valid', p.name, p.data
         yield 'extend', p.name, p.data + b'\x00'
 
 
